@@ -110,6 +110,36 @@ theorem pass_removed {del : List Bytes → St → Bytes → Res} {prog : List By
     | inl h => subst h; exact .direct hx hfx
     | inr h => exact Reach.under hx hfx (has2 ▸ h)
 
+/-- what all rounds of one delete remove -/
+theorem rounds_removed {σ : Schema} {del : List Bytes → St → Bytes → Res} {prog : List Bytes} {id : Bytes}
+    (hdel : ∀ st x st', del (mark prog id) st x = .ok st' →
+      Sub st' st ∧ ∀ k e, st.as.lookup k = some e → st'.as.lookup k = none →
+        k = x ∨ (k ∉ mark (mark prog id) x ∧ Reach st.as x k)) :
+    ∀ (l : List (Option Child)) (s s' : St), l.foldlM (roundA σ del prog id) s = .ok s' →
+      Sub s' s ∧ ∀ k e, s.as.lookup k = some e → s'.as.lookup k = none → k ∉ mark prog id ∧ Reach s.as id k := by
+  intro l
+  induction l with
+  | nil =>
+    intro s s' h
+    simp only [List.foldlM_nil, pure, Except.pure] at h
+    cases h
+    exact ⟨Sub.refl _, fun k e he hn => by rw [he] at hn; cases hn⟩
+  | cons r rest ih =>
+    intro s s' h
+    simp only [List.foldlM_cons, bind_ok] at h
+    obtain ⟨s1, h1, h2⟩ := h
+    obtain ⟨s3, hp, _, rfl⟩ := roundA_ok h1
+    obtain ⟨hsub3, hrem3⟩ := pass_removed hdel hp
+    have g := roundA_geq (σ := σ) (s3 := s3) (id := id) r
+    obtain ⟨hsub', hrem'⟩ := ih _ s' h2
+    have hsub1 : Sub (afterRound σ id s3 r) s := (Sub.of_as g.1).trans hsub3
+    refine ⟨hsub'.trans hsub1, fun k e he hn => ?_⟩
+    cases h1k : (afterRound σ id s3 r).as.lookup k with
+    | none => rw [g.1] at h1k; exact hrem3 k e he h1k
+    | some e1 =>
+      obtain ⟨a, b⟩ := hrem' k e1 h1k hn
+      exact ⟨a, b.mono hsub1⟩
+
 /-- **soundness of the cascade**: whatever a successful `DeleteById` on A removes is the target or
     refers to it transitively — and is not in progress; every other table entry is untouched
     (no invariant needed) -/
@@ -122,21 +152,9 @@ theorem deleteA_removed (σ : Schema) : ∀ (n : Nat) (prog : List Bytes) (s : S
   | zero => intro prog s id s' h; simp [deleteA] at h
   | succ n ih =>
     intro prog s id s' h
-    obtain ⟨_, s0, s3, h0, hp, _, rfl⟩ := deleteA_succ_ok h
+    obtain ⟨_, s3, hF, _, rfl⟩ := deleteA_succ_ok h
     have hdel := fun st x st' hd => ih (mark prog id) st x st' hd
-    have hfin : Sub s3 s ∧ ∀ k e, s.as.lookup k = some e → s3.as.lookup k = none →
-        k ∉ mark prog id ∧ Reach s.as id k := by
-      rcases h0 with ⟨_, rfl⟩ | ⟨_, hp0⟩
-      · exact pass_removed hdel hp
-      · obtain ⟨hsub0, hrem0⟩ := pass_removed hdel hp0
-        obtain ⟨hsub3, hrem3⟩ := pass_removed hdel hp
-        refine ⟨hsub3.trans hsub0, fun k e he hn => ?_⟩
-        cases h0k : s0.as.lookup k with
-        | none => exact hrem0 k e he h0k
-        | some e0 =>
-          obtain ⟨a, b⟩ := hrem3 k e0 h0k hn
-          exact ⟨a, b.mono hsub0⟩
-    obtain ⟨hsub3, hrem3⟩ := hfin
+    obtain ⟨hsub3, hrem3⟩ := rounds_removed hdel _ s s3 hF
     constructor
     · intro k e he
       simp only [Map.lookup_erase] at he
@@ -266,6 +284,30 @@ theorem passA_diverge {σ : Schema} {del : List Bytes → St → Bytes → Res} 
           · simp [beforeDeleteA] at h4
           · cases hF
 
+theorem rounds_diverge {σ : Schema} {m : Nat} {prog : List Bytes} {id : Bytes} :
+    ∀ (l : List (Option Child)) (s : St), l.foldlM (roundA σ (deleteA σ m) prog id) s = .error .diverge →
+      ∃ s2, Sub s2 s ∧
+        cascadeOver (deleteA σ m (mark prog id)) (·.boss) id (mark prog id) (referrers s2 (·.boss) id) s2 = .error .diverge := by
+  intro l
+  induction l with
+  | nil => intro s h; simp [List.foldlM_nil, pure, Except.pure] at h
+  | cons r rest ih =>
+    intro s h
+    simp only [List.foldlM_cons, bind_error] at h
+    rcases h with h1 | ⟨s1, h1, h2⟩
+    · unfold roundA at h1
+      split at h1
+      · cases h1
+      · next e hp =>
+        cases h1
+        obtain ⟨s2, has2, hd⟩ := passA_diverge hp
+        exact ⟨s2, Sub.of_as has2, hd⟩
+    · obtain ⟨s3, hp, _, rfl⟩ := roundA_ok h1
+      have hsub3 := (pass_removed (fun st x st' hd => deleteA_removed σ m (mark prog id) st x st' hd) hp).1
+      have g := roundA_geq (σ := σ) (s3 := s3) (id := id) r
+      obtain ⟨s2, hs2, hd⟩ := ih _ h2
+      exact ⟨s2, hs2.trans ((Sub.of_as g.1).trans hsub3), hd⟩
+
 /-- a diverging `DeleteById` on A diverges inside the cascade loop of one of its rounds, which runs on a
     sub-table of the table the call started from -/
 theorem deleteA_diverge_inv {σ : Schema} {m : Nat} {prog : List Bytes} {s : St} {id : Bytes}
@@ -277,25 +319,10 @@ theorem deleteA_diverge_inv {σ : Schema} {m : Nat} {prog : List Bytes} {s : St}
   · next hc =>
     refine ⟨hc, ?_⟩
     split at h
-    · next s0 h0 =>
-      have hsub0 : Sub s0 s := by
-        split at h0
-        · exact (pass_removed (fun st x st' hd => deleteA_removed σ m (mark prog id) st x st' hd) (passA_ok h0)).1
-        · cases h0; exact Sub.refl _
-      split at h
-      · split at h
-        · cases h
-        · cases h
-      · next e hF =>
-        cases h
-        obtain ⟨s2, has2, hd⟩ := passA_diverge hF
-        exact ⟨s2, fun k e he => hsub0 k e (has2 ▸ he), hd⟩
-    · next e h0 =>
-      cases h
-      split at h0
-      · obtain ⟨s2, has2, hd⟩ := passA_diverge h0
-        exact ⟨s2, fun k e he => has2 ▸ he, hd⟩
-      · cases h0
+    · split at h
+      · cases h
+      · cases h
+    · next e hF => cases h; exact rounds_diverge _ s hF
   · cases h
 
 /-- **Termination of the cascading delete** (explicit measure: table size − in-progress set size).
@@ -429,11 +456,51 @@ theorem pass_progress {σ : Schema} {n : Nat} {prog : List Bytes} {Q : Bytes →
       _ _ s3 hI2 h3).1
   · exact Or.inr h3
 
+/-- all rounds make progress -/
+theorem rounds_progress {σ : Schema} {n : Nat} {prog : List Bytes} {id : Bytes} {e : EntA}
+    (hid : id ∉ prog)
+    (ih : ∀ st x, GInv σ (· ∈ mark prog id) st → x ∉ mark prog id → isReferrer st (·.boss) id x = true →
+      OkOrDiverge (deleteA σ n (mark prog id) st x)) :
+    ∀ (l : List (Option Child)) (s : St), (GInv σ (· ∈ prog) s ∨ GInv σ (· ∈ mark prog id) s) →
+      s.as.lookup id = some e →
+      (∃ s3, l.foldlM (roundA σ (deleteA σ n) prog id) s = .ok s3 ∧ s3.as.lookup id = some e) ∨
+        l.foldlM (roundA σ (deleteA σ n) prog id) s = .error .diverge := by
+  have hmarkiff : ∀ k, plus (· ∈ prog) id k ↔ k ∈ mark prog id := by
+    intro k; rw [mem_mark]; unfold plus; exact Or.comm
+  have hmarkiff2 : ∀ k, plus (· ∈ mark prog id) id k ↔ k ∈ mark prog id := by
+    intro k; unfold plus
+    constructor
+    · rintro (h | h)
+      · exact h
+      · exact (mem_mark prog id k).2 (Or.inl h)
+    · exact Or.inl
+  intro l
+  induction l with
+  | nil => intro s _ he; exact Or.inl ⟨s, rfl, he⟩
+  | cons r rest ihl =>
+    intro s hI he
+    simp only [List.foldlM_cons]
+    have hp : (∃ s3, passA σ (deleteA σ n) prog id s = .ok s3 ∧ GInv σ (· ∈ mark prog id) s3) ∨
+        passA σ (deleteA σ n) prog id s = .error .diverge := by
+      rcases hI with hI | hI
+      · exact pass_progress hI hmarkiff ih
+      · exact pass_progress hI hmarkiff2 ih
+    rcases hp with ⟨s3, h3, hI3⟩ | h3
+    · have hr : roundA σ (deleteA σ n) prog id s r = .ok (afterRound σ id s3 r) := by
+        unfold roundA; rw [h3]
+      rw [hr]
+      have g := roundA_geq (σ := σ) (s3 := s3) (id := id) r
+      have he3 : (afterRound σ id s3 r).as.lookup id = some e := by rw [g.1]; exact pass_keeps_id h3 he
+      exact ihl _ (Or.inr (hI3.of_geq g)) he3
+    · have hr : roundA σ (deleteA σ n) prog id s r = .error .diverge := by
+        unfold roundA; rw [h3]
+      rw [hr]; exact Or.inr rfl
+
 /-- **under the invariant, `DeleteById` on an existing A entity that is not in progress succeeds or
-    runs out of fuel** — never not-found, never bucket-not-found, never a reference error; with one round
-    or, for an entity with child-store data, two (the second round may find the boss already deleted by the
-    first round's cascade — a reference cycle through the entity; since 001d2d2 that is skipped, before it
-    was a not-found failure). -/
+    runs out of fuel** — never not-found, never bucket-not-found, never a reference error; whatever the
+    number of rounds (one per child store holding data for the entity, then A's own; a later round may find
+    the boss already deleted by an earlier round's cascade — a reference cycle through the entity; since
+    001d2d2 that is skipped, before it was a not-found failure). -/
 theorem deleteA_progress (σ : Schema) : ∀ (n : Nat) (prog : List Bytes) (s : St) (id : Bytes),
     GInv σ (· ∈ prog) s → id ∉ prog → s.as.contains id = true →
     OkOrDiverge (deleteA σ n prog s id) := by
@@ -443,42 +510,18 @@ theorem deleteA_progress (σ : Schema) : ∀ (n : Nat) (prog : List Bytes) (s : 
   | succ n ih =>
     intro prog s id hI hid hc
     obtain ⟨e, he⟩ := (Map.contains_iff _ _).1 hc
-    have hmarkiff : ∀ k, plus (· ∈ prog) id k ↔ k ∈ mark prog id := by
-      intro k; rw [mem_mark]; unfold plus; exact Or.comm
-    have hmarkiff2 : ∀ k, plus (· ∈ mark prog id) id k ↔ k ∈ mark prog id := by
-      intro k; unfold plus
-      constructor
-      · rintro (h | h)
-        · exact h
-        · exact (mem_mark prog id k).2 (Or.inl h)
-      · exact Or.inl
     have ihn : ∀ st x, GInv σ (· ∈ mark prog id) st → x ∉ mark prog id → isReferrer st (·.boss) id x = true →
         OkOrDiverge (deleteA σ n (mark prog id) st x) := by
       intro st x a hx hr
       obtain ⟨ex, hex, _⟩ := (isReferrer_iff st _ id x).1 hr
       exact ih (mark prog id) st x a hx ((Map.contains_iff _ _).2 ⟨ex, hex⟩)
-    have hkeep : ∀ st s3, st.as.lookup id = some e → passA σ (deleteA σ n) prog id st = .ok s3 →
-        s3.as.contains id = true := by
-      intro st s3 hst h3
-      exact (Map.contains_iff _ _).2 ⟨e, pass_keeps_id h3 hst⟩
     unfold deleteA
     simp only [hc, if_true]
-    cases hx : hasExt s id
-    case false =>
-      simp only [Bool.false_eq_true, if_false]
-      rcases pass_progress hI hmarkiff ihn with ⟨s3, h3, _⟩ | h3
-      · rw [h3]; simp only [hkeep s s3 he h3, if_true]; exact Or.inl ⟨_, rfl⟩
-      · rw [h3]; exact Or.inr rfl
-    case true =>
-      simp only [if_true]
-      rcases pass_progress hI hmarkiff ihn with ⟨s0, h0, hI0⟩ | h0
-      · rw [h0]
-        simp only
-        have he0 : s0.as.lookup id = some e := pass_keeps_id h0 he
-        rcases pass_progress hI0 hmarkiff2 ihn with ⟨s3, h3, _⟩ | h3
-        · rw [h3]; simp only [hkeep s0 s3 he0 h3, if_true]; exact Or.inl ⟨_, rfl⟩
-        · rw [h3]; exact Or.inr rfl
-      · rw [h0]; exact Or.inr rfl
+    rcases rounds_progress hid ihn (roundsOf σ s id) s (Or.inl hI) he with ⟨s3, h3, he3⟩ | h3
+    · rw [h3]
+      have : s3.as.contains id = true := (Map.contains_iff _ _).2 ⟨e, he3⟩
+      simp only [this, if_true]; exact Or.inl ⟨_, rfl⟩
+    · rw [h3]; exact Or.inr rfl
 
 theorem GInv.ofInv {σ : Schema} {s : St} (h : Inv σ s) : GInv σ (· ∈ ([] : List Bytes)) s :=
   h.congr (fun k => by simp [none'])
@@ -555,7 +598,9 @@ theorem deleteB_progress {σ : Schema} {s : St} {b : Bytes} (hI : Inv σ s) (hc 
   · rw [h2]
     have : s2.bs.contains b = true := by rw [hbs]; exact hc
     simp only [this, if_true]
-    exact Or.inl ⟨_, rfl⟩
+    cases hcr : (childRestrict σ s2 b .c1 || childRestrict σ s2 b .c2)
+    · simp only [Bool.false_eq_true, if_false]; exact Or.inl ⟨_, rfl⟩
+    · exact Or.inr (by simp)
   · rw [h2]; exact Or.inr rfl
 
 /-- soundness of the cascade on B: whatever a successful `DeleteById` on B removes from table A is a
@@ -590,23 +635,25 @@ theorem deleteB_removed {σ : Schema} {s s' : St} {id : Bytes} (h : deleteB σ s
     · next sF hF =>
       split at h
       · cases h
-        unfold orderB at hF
-        cases hdf : σ.depFirst
-        case true =>
-          simp only [hdf, if_true, List.foldlM_cons, List.foldlM_nil, bind_ok] at hF
-          obtain ⟨s1, h1, s2, h2, h3⟩ := hF
-          have e3 : s2 = sF := by cases h3; rfl
-          subst e3
-          cases hrestrict _ _ h2
-          exact hcascade s s1 h1
-        case false =>
-          simp only [hdf, Bool.false_eq_true, if_false, List.foldlM_cons, List.foldlM_nil, bind_ok] at hF
-          obtain ⟨s1, h1, s2, h2, h3⟩ := hF
-          have e3 : s2 = sF := by cases h3; rfl
-          subst e3
-          cases hrestrict _ _ h1
-          exact hcascade s s2 h2
-      · cases h
+      · split at h
+        · cases h
+          unfold orderB at hF
+          cases hdf : σ.depFirst
+          case true =>
+            simp only [hdf, if_true, List.foldlM_cons, List.foldlM_nil, bind_ok] at hF
+            obtain ⟨s1, h1, s2, h2, h3⟩ := hF
+            have e3 : s2 = sF := by cases h3; rfl
+            subst e3
+            cases hrestrict _ _ h2
+            exact hcascade s s1 h1
+          case false =>
+            simp only [hdf, Bool.false_eq_true, if_false, List.foldlM_cons, List.foldlM_nil, bind_ok] at hF
+            obtain ⟨s1, h1, s2, h2, h3⟩ := hF
+            have e3 : s2 = sF := by cases h3; rfl
+            subst e3
+            cases hrestrict _ _ h1
+            exact hcascade s s2 h2
+        · cases h
     · cases h
   · cases h
 
